@@ -194,7 +194,10 @@ def cases(ctx):
               ("binary", [["ecr", 1, 0], ["measure", 0, 0], ["measure", 1, 1]], 2),
               ("efficient", [["x", 1], ["rz", 0, 5], ["measure", 0, 0], ["measure", 1, 1]], 2),
               ("grid", [["ecr", 1, 0], ["cx", 0, 1], ["measure", 1, 0]], 2),
-              ("binary", [["cx", 5, 2], ["delay", 5, 7], ["sx", 2], ["measure", 5, 0]], 2)]
+              ("binary", [["cx", 5, 2], ["delay", 5, 7], ["sx", 2], ["measure", 5, 0]], 2),
+              # two-digit labels whose decimal spellings collide when written next to each other: (1,12) / (11,2), (1,10) / (11,0)
+              ("binary", [["cx", 1, 12], ["cx", 11, 2], ["ecr", 1, 10], ["ecr", 11, 0], ["cx", 11, 2], ["sx", 12], ["measure", 1, 0]], 6),
+              ("binary", [["ecr", 11, 2], ["ecr", 1, 12], ["cx", 11, 0], ["cx", 1, 10], ["measure", 12, 1], ["measure", 0, 0]], 6)]
     out += corpus
     for cls in CLASSES:
         for _ in range(120 if ctx.thorough else 24):
@@ -264,6 +267,13 @@ def main(ctx):
                                                     f"- operations after the reset are sampled with stale virtual phases",
                                                     {"history": {"n": n, "depth": depth}}]))
     cov["direct_histories_with_resets"] = nh
+    # one simulator object serves circuits of the same name / size and circuit objects edited in place (C03's sequence, noise-free gate
+    # set): every run uses the operations and the measured qubits of the circuit as it is at that moment
+    from props import c03 as S03
+    for cls in (CLASSES if ctx.thorough else ["binary", ctx.rng.choice(["grid", "standard", "efficient", "one"])]):
+        ops_s, bad_s = S03.same_simulator_case(ctx.rng, cls); ctx.count()
+        if bad_s:
+            fails.append((cls, ops_s, None, [f"one simulator object, several circuits / circuit objects edited in place: {bad_s}"]))
     # relabelling and marginals
     for _ in range(30 if ctx.thorough else 8):
         ops, ops2, bad = relabel_check(ctx.rng, ctx.rng.randint(2, 4)); ctx.count()
